@@ -8,7 +8,7 @@ From Alpaqa Require Import Csv.
 Import ListNotations.
 
 Definition errcode (e : err) : nat :=
-  match e with EInvalidStream => 0 | EExtraction => 1 | EConversion => 2 | EUnexpected => 3 | ENotConsumed => 4 | EFuel => 5 end.
+  match e with EInvalidStream => 0 | EExtraction => 1 | EConversion => 2 | EUnexpected => 3 | ENotConsumed => 4 | EFuel => 5 | ETooLong => 6 end.
 
 Definition obs : Type := (nat + list Z) * nat * bool * bool.     (* result, bytes left, eofbit, failbit *)
 
